@@ -19,13 +19,10 @@ import vlib
 import hydcommon as hc
 
 FAMS = [("D_C25_PartialBlockHides", ["PartialBlockHides", "AppendAfterTorn", "TornTailFails"]),
-        ("D_C25_PartialBlockHides", ["PartialBlockHides"]),      # (if the reader / reopen side is repaired first)
-        ("D_C25_PartialBlockHides", ["PartialBlockHides", "TornTailFails"]),
         ("D_C25_BufferDroppedOnError", ["BufferDroppedOnError"]),
         ("D_C25_HeaderFaultMisplaces", ["HeaderFaultMisplaces"]),
         ("D_C25_CloseFaultWedges", ["CloseFaultWedges"]),
-        ("D_C25_FailedCreateBlocks", ["TornCreate", "WriteErrorsSkipped"]),
-        ("D_C25_FailedCreateBlocks", ["WriteErrorsSkipped"])]
+        ("D_C25_FailedCreateBlocks", ["TornCreate", "WriteErrorsSkipped"])]
 
 
 def run(ctx):
